@@ -12,4 +12,4 @@ Extraction "model.ml"
   new_batch batch_put batch_get batch_delete batch_commit db_merge db_backup db_files
   lf_crash idx_get mkCfg mkDisk lf_empty step run crash_open crash_disk fs_replay fs_empty
   db_read di_new di_rewind di_seek di_next di_valid di_cur shards_of
-  lstep lrun holder db_merge_i crun run_cmd dec_meta.
+  lstep lrun holder db_merge_i crun run_cmd dec_meta load_merge_files.
